@@ -1396,8 +1396,9 @@ def run_ufunc_case(case, scratch):
                 uops.append("(2, 9)")
         else:
             lv, feat, fn = op[1], op[2], op[3]
-            if lv == 1 and feat == "deform":
-                # tie with Model urun: which data version does the summary reflect
+            if lv == 1 and feat == "deform" and not stale:
+                # tie with Model urun (documented use: the child was rejuvenated
+                # after the last change): which data version the summary reflects
                 tie_reads.append((fn, safe_call(
                     lambda: float(getattr(levels[1]["deform"], fn)()))))
                 uops.append("(2, %d)" % KS.index(fn))
@@ -1790,7 +1791,15 @@ def run_lcl_case(case):
                     get(i)
             else:
                 l0 = len(masks.log)
-                res = lcl[op[1]:op[2]:op[3]]
+                oks, res = safe_call(lcl.__getitem__, slice(op[1], op[2], op[3]))
+                if not oks or len(res) != len(idxs):
+                    if fail is None:
+                        fail = "lazy list slice [%d:%d:%d] %s" % (
+                            op[1], op[2], op[3],
+                            ("raised " + str(res)) if not oks else "has a wrong length")
+                    for i in idxs:
+                        get(i)
+                    continue
                 read = set(masks.log[l0:])
                 for k, i in enumerate(idxs):
                     rops.append("(0, %d)" % i)
@@ -2537,8 +2546,10 @@ def run(run):
     done = [None] * len(cases)
     for i, res in zip(order, results):
         if "crash" in res:
-            raise RuntimeError("case %d (%s) crashed: %s" % (
-                i, cases[i].get("kind"), res["crash"]))
+            # the case could not be executed to the end: an exception escaped
+            # from the implementation where none is expected
+            res = dict(fail="the case raised unexpectedly: " + res["crash"][:600],
+                       nontrivial=False, crashed=True)
         done[i] = (cases[i], res)
     t1 = time.time()
     done += run_obj_checks(run, 6 if t else 2)
@@ -2553,7 +2564,9 @@ def run(run):
             run.count("obj:" + c["obj"])
             if c["ops"] and c["ops"][0][:2] == ["r", 4] and c["ops"][0][2] in (1, 2):
                 run.count("obj:lossy-dtype-first")
-        if k == "cache":
+        if res.get("crashed"):
+            run.count("case-raised-unexpectedly")
+        elif k == "cache":
             run.count("cache:cap=%d" % c["cap"])
             run.count("cache:calls", len(c["ops"]))
             run.count("cache:hits", res["hits"])
@@ -2564,7 +2577,7 @@ def run(run):
                 run.notes.append("cache: " + nt)
                 run.broken.append(("oracle-hypothesis(memoised functions are "
                                    "deterministic functions of their arguments)", nt))
-        if k == "hashfile":
+        if k == "hashfile" and not res.get("crashed"):
             run.count("hashfile:mtime-bumps", res["bumps"])
             run.count("hashfile:hits", res["hits"])
             run.count("hashfile:misses", res["misses"])
@@ -2573,7 +2586,7 @@ def run(run):
             run.count(k + ":known-finding")
         if res.get("fail"):
             run.oracle_failure(c, "[%s] %s" % (k, res["fail"]), classify(c, res["fail"]))
-        if k in MODEL_FN:
+        if k in MODEL_FN and "render" in res:
             by_kind.setdefault(k, []).append((c, res))
 
     run.extra["phase_seconds"] = dict(implementation_pool=round(t1 - t0, 1),
